@@ -239,3 +239,32 @@ func VerifConsts() map[string]uint64 {
 		"DBKVRejected":       DBKVRejected,
 	}
 }
+
+// VerifRounds drives the leader's round proposals (Drummer.updateRequests)
+// with the leader's own long-lived client session.
+type VerifRounds struct {
+	d *Drummer
+}
+
+// VerifNewRounds returns a VerifRounds on nh.
+func VerifNewRounds(nh *dragonboat.NodeHost) *VerifRounds {
+	return &VerifRounds{d: &Drummer{
+		nh:          nh,
+		server:      newDrummerServer(nh, &VerifRand{}),
+		ctx:         context.Background(),
+		sessionUser: &sessionUser{nh: nh},
+	}}
+}
+
+// UpdateRequests proposes one scheduling round.
+func (v *VerifRounds) UpdateRequests(reqs []*pb.NodeHostRequest) (uint64, error) {
+	return v.d.updateRequests(reqs)
+}
+
+// VerifSetRaftOpTimeout sets the timeout of a Drummer DB operation and returns
+// the previous value (milliseconds).
+func VerifSetRaftOpTimeout(ms uint64) uint64 {
+	old := raftOpTimeoutMillisecond
+	raftOpTimeoutMillisecond = ms
+	return old
+}
